@@ -9,6 +9,9 @@ BASELINE_OFF = ("cd /repo && export GOFLAGS=-mod=mod GOPROXY=off && go build ./.
 TECH = ("bounded symbolic execution of the real go/ssa code (gosym) with SMT (z3 QF_BV, verdicts "
         "cross-checked on cvc5), counterexamples replayed natively")
 
+FRONT = (" (front end: source text parsed by go/parser, type-checked by go/types and walked by the real visitors inside the engine, "
+         "then GleecePipeline.Run and both emitters; DESIGN.md 9.7)")
+
 # id -> (level text, level note, design ref)
 CLAIMS = {
  "C01": ("For symbolic flat IR (1 controller x 1 route with rich slash structure in prefix and route; 2 controllers x 1 route and 1 controller x 2 routes with plain shapes; verb, hidden, deprecated symbolic) "
